@@ -361,9 +361,9 @@ macro_rules! c03_proof {
         }
     };
 }
-c03_proof!(c03_osu_pgradual_n0, 0, 0, 6);
-c03_proof!(c03_osu_pgradual_n2, 2, 1, 6);
-c03_proof!(c03_osu_pgradual_n3, 3, 2, 7);
+c03_proof!(c03_osu_pgradual_n0, 0, 0, 10);
+c03_proof!(c03_osu_pgradual_n2, 2, 1, 10);
+c03_proof!(c03_osu_pgradual_n3, 3, 2, 10);
 
 s1_proof!(s1_osu_step_n0, 0, 0, 6);
 s1_proof!(s1_osu_step_n1, 1, 0, 6);
